@@ -4,7 +4,7 @@ import CelmaVerif.Model.Containers
 open CelmaVerif CelmaVerif.Containers CelmaVerif.Proto
 
 inductive Kind where
-  | seqInt (k : SeqKind) | vecStr | arr (n : Nat) | bits (n : Nat) | map | tuple
+  | seqInt (k : SeqKind) | vecStr | arr (n : Nat) | arrStr (n : Nat) | bits (n : Nat) | map | tuple
   deriving Repr
 
 structure Cfg where
@@ -34,6 +34,8 @@ def parseKind (s : String) : Option Kind :=
   | ["tuple_int_str_int"] => some .tuple
   | ["carray_int", n] => n.toNat?.map .arr
   | ["stdarray_int", n] => n.toNat?.map .arr
+  | ["carray_str", n] => n.toNat?.map .arrStr
+  | ["stdarray_str", n] => n.toNat?.map .arrStr
   | ["bitset", n] => n.toNat?.map .bits
   | _ => none
 
@@ -107,6 +109,7 @@ def configureLine (c : Cfg) : Res Unit :=
   | .seqInt k => if c.pair.isSome then .throw .invalid_argument else configure k c.o
   | .vecStr => if c.pair.isSome then .throw .invalid_argument else configure .vec c.o
   | .arr _ => if c.pair.isSome then .throw .invalid_argument else arrConfigure c.o
+  | .arrStr _ => if c.pair.isSome then .throw .invalid_argument else arrConfigure c.o
   | .bits _ => if c.pair.isSome then .throw .invalid_argument else bitConfigure c.o
   | .tuple => if c.pair.isSome then .throw .invalid_argument else tupConfigure c.o
   | .map => match mapConfigure c.pair c.sepGiven c.o.sort with
@@ -139,8 +142,12 @@ def evalLine (c : Cfg) (words : List String) : String :=
       | none => "bad-op"
       | some iv =>
         let slots := (iv ++ List.replicate n 0).take n
-        let (s, st) := withParseStop (arrRunP c.o false ⟨slots, 0⟩ uses) pe
+        let (s, st) := withParseStop (arrRunP intElem c.o false ⟨slots, 0⟩ uses) pe
         outLine (showInts s.slots) st
+    | .arrStr n =>
+      let slots : List (List Char) := (c.init.map String.toList ++ List.replicate n []).take n
+      let (s, st) := withParseStop (arrRunP strElem c.o false ⟨slots, 0⟩ uses) pe
+      outLine (showList (s.slots.map String.ofList)) st
     | .bits n =>
       match c.init.mapM (·.toNat?) with
       | none => "bad-op"
